@@ -364,31 +364,42 @@ Section Parts.
   Proof.
     intros lit path sp bs Hsp H. unfold fetch_section in H.
     destruct (root_sect_ok lit) as (R & _).
-    assert (Hgen : forall r, part_of ctype_of lit (root_sect lit) path = Some r ->
+    assert (Hgen : forall r m, part_of ctype_of lit (root_sect lit) path = Some r -> sect_ok (length lit) m ->
       match sp with
       | SpAll | SpBody => Some (sect_body lit r)
       | SpMime => Some (sect_header lit r)
-      | SpHeader => Some (sect_header lit (embedded ctype_of lit r))
-      | SpText => Some (sect_body lit (embedded ctype_of lit r))
-      | SpFields neg fields => header_fields neg (sect_header lit (embedded ctype_of lit r)) fields
+      | SpHeader => Some (sect_header lit m)
+      | SpText => Some (sect_body lit m)
+      | SpFields neg fields => header_fields neg (sect_header lit m) fields
       end = Some bs -> exists a b, a <= b /\ b <= length lit /\ bs = slice lit a b).
-    { intros r Hr Hb. destruct (part_of_inside path lit _ r R Hr) as [(A1 & A2 & A3) _].
-      assert (He : sect_ok (length lit) (embedded ctype_of lit r)).
-      { unfold embedded. destruct (ctype_of (sect_header lit r)); try (unfold sect_ok; lia).
-        destruct (parse_sect_ok lit (s_b r) (s_e r) A2 A3) as (_ & _ & P). exact P. }
-      destruct He as (E1 & E2 & E3).
+    { intros r m Hr (E1 & E2 & E3) Hb. destruct (part_of_inside path lit _ r R Hr) as [(A1 & A2 & A3) _].
       destruct sp; try contradiction; inversion Hb; subst; unfold sect_body, sect_header;
         eexists _, _; (split; [|split; [|reflexivity]]); lia. }
+    assert (Hemb : forall r, sect_ok (length lit) r -> sect_ok (length lit) (embedded ctype_of lit r)).
+    { intros r (A1 & A2 & A3). unfold embedded. destruct (ctype_of (sect_header lit r)); try (unfold sect_ok; lia).
+      destruct (parse_sect_ok lit (s_b r) (s_e r) A2 A3) as (_ & _ & P). exact P. }
     destruct path as [|n rest].
     - destruct sp; try contradiction.
       + assert (Hbs : lit = bs) by (inversion H; reflexivity). rewrite <- Hbs.
         exists 0, (length lit). split; [lia|]. split; [lia|]. symmetry. apply slice_full.
-      + apply (Hgen (root_sect lit)); auto.
-      + apply (Hgen (root_sect lit)); auto.
-      + apply (Hgen (root_sect lit)); auto.
-      + apply (Hgen (root_sect lit)); auto.
+      + apply (Hgen (root_sect lit) (root_sect lit)); auto.
+      + apply (Hgen (root_sect lit) (root_sect lit)); auto.
+      + apply (Hgen (root_sect lit) (root_sect lit)); auto.
+      + apply (Hgen (root_sect lit) (root_sect lit)); auto.
     - destruct (part_of ctype_of lit (root_sect lit) (n :: rest)) as [r|] eqn:Er.
-      + apply (Hgen r); auto.
+      + destruct (part_of_inside (n :: rest) lit _ r R Er) as [Hr _].
+        apply (Hgen r (embedded ctype_of lit r)); auto.
       + destruct sp; discriminate.
+  Qed.
+
+  (* BODY[HEADER] followed by BODY[TEXT] is BODY[], whatever the media type of the message itself is *)
+  Lemma fetch_header_plus_text : forall lit,
+    exists h t, fetch_section ctype_of lit [] SpHeader = Some h /\ fetch_section ctype_of lit [] SpText = Some t /\
+                h ++ t = lit /\ fetch_section ctype_of lit [] SpAll = Some lit.
+  Proof.
+    intros lit. destruct (root_sect_ok lit) as (R & Rh & Re).
+    exists (sect_header lit (root_sect lit)), (sect_body lit (root_sect lit)).
+    repeat split; try reflexivity.
+    rewrite (sect_header_plus_body lit _ R). unfold sect_literal. rewrite Rh, Re. apply slice_full.
   Qed.
 End Parts.
